@@ -43,6 +43,13 @@ def table_sites(P, R):
                     cnt = [t for t in f.stores() if t.ev.get('op') == '++' and on_path(t.ev['lhs'], 'n_req_allocs')]
                     both = bool(cnt) and (f.dominates(cnt[0].bid, s.bid) or f.path_avoiding(s, lambda t: t in cnt) is None)
                     R.ob('C10.WMC.1', ok and both, s, 'requests enter the table only in the announce handler, counted on the same path', key='insert')
+                    # a request that was allocated is indexed before anything else can happen to it: a verdict or return
+                    # between the allocation and the insert leaves a record (and its armed timer) nobody can release
+                    allocs = [t for t in f.sites() if (t.ev.get('rhs') or t.ev.get('init') or {}).get('callee') in ('set_node_alloc', 'xmalloc', 'malloc', 'calloc') and t.ev['k'] == 'store' and is_var(t.ev.get('lhs')) and any(is_var(x, t.ev['lhs']['name']) for x in walk(s.ev['args'][1]))]
+                    for al in allocs:
+                        p_ = f.path_avoiding(al, lambda t: t.key == s.key)
+                        R.ob('C10.WMC.1', p_ is None, al, 'every path from the allocation of a request reaches its insertion into the table', key='alloc->insert',
+                             detail=('path: lines %s' % f.path_lines(p_)) if p_ else None)
                 elif c == 'set_remove':
                     disposing = len(a) > 2 and const_of(a[2]) == 0
                     cnt = f.path_avoiding(s, lambda t: t.ev['k'] == 'store' and t.ev.get('op') == '++' and on_path(t.ev['lhs'], 'n_req_frees'))
@@ -203,6 +210,9 @@ def module_lifetime(P, R, rule='C10.WIRE.3'):
 
 
 def run(P, R, tier):
+    # withdrawals and registrations must find the request they are about
+    from .c08 import junk_inert
+    junk_inert(P, R, 'C10.GRD.1')
     table_sites(P, R)
     cl = cleanup_fn(P, R)
     timer_lifecycle(P, R, cl)
